@@ -11,6 +11,7 @@ import (
 	"path/filepath"
 	"strings"
 	"sync"
+	"sync/atomic"
 	"time"
 
 	"verif/harness/fault"
@@ -40,6 +41,7 @@ type faultViolation struct {
 	Cache     int             `json:"cache"`
 	Flush     int             `json:"flush"`
 	Sync      bool            `json:"sync,omitempty"`
+	Persist   bool            `json:"persist,omitempty"`
 	Step      int             `json:"step"`
 	Op        string          `json:"op"`
 	FailAt    int             `json:"fail_at"`
@@ -80,10 +82,26 @@ func faultOne(b *model.Behaviour, pal *palette.Palette, palName string, palSeed 
 		}
 	}
 	for oi, o := range ref {
-		for j := o.C0; j < o.C1; j++ {
+		for jj := o.C0; jj < 2*o.C1-o.C0; jj++ {
+			// second half of the range: the same position with a persistent failure (every later call of the
+			// operation fails too) - a sampled multi-fault sequence
+			j, persist := jj, false
+			if jj >= o.C1 {
+				j, persist = jj-(o.C1-o.C0), true
+				if !multiFault || (j+oi)%multiEvery != 0 {
+					continue
+				}
+			}
 			positions++
 			kinds[refKinds[j]]++
-			r := &fault.Runner{B: b, Pal: pal, Cache: cache, Flush: flush, Sync: sync, Probe: true}
+			add := func(v faultViolation) {
+				v.Persist = persist
+				if persist {
+					v.Msg = "[every storage call from that one on fails] " + v.Msg
+				}
+				viols = append(viols, v)
+			}
+			r := &fault.Runner{B: b, Pal: pal, Cache: cache, Flush: flush, Sync: sync, Persist: persist, Probe: true}
 			r.Run(j, oi+1)
 			if len(r.Ops) != oi+1 || !r.FDB.Fired {
 				// the run did not reach the same call: not deterministic, no verdict
@@ -100,9 +118,12 @@ func faultOne(b *model.Behaviour, pal *palette.Palette, palName string, palSeed 
 			}
 			got := r.Ops[oi]
 			ev := faultEvent{Kind: "fault", Op: opClass(o.Name), Writer: o.Writer}
+			if persist {
+				atomic.AddInt64(&multiPositions, 1)
+			}
 			switch {
 			case got.Panic != "":
-				viols = append(viols, mk(o.Step, o.Name, j, "panic instead of an error: "+firstLine(got.Panic)+" at "+libFrame(got.Panic)))
+				add(mk(o.Step, o.Name, j, "panic instead of an error: "+firstLine(got.Panic)+" at "+libFrame(got.Panic)))
 				continue
 			case got.Err:
 				ev.Ret = "error"
@@ -110,14 +131,14 @@ func faultOne(b *model.Behaviour, pal *palette.Palette, palName string, palSeed 
 				ev.Ret = "same"
 			default:
 				ev.Ret = "different"
-				viols = append(viols, mk(o.Step, o.Name, j, fmt.Sprintf("a failed storage call (%s) is passed off as a result: fault-free %q, with the fault %q", refKinds[j], truncate(o.Outcome, 200), truncate(got.Outcome, 200))))
+				add(mk(o.Step, o.Name, j, fmt.Sprintf("a failed storage call (%s) is passed off as a result: fault-free %q, with the fault %q", refKinds[j], truncate(o.Outcome, 200), truncate(got.Outcome, 200))))
 				continue
 			}
 			if o.Writer && !noDurable {
 				ev.Durable = fault.Durable(faultdb.Dump(r.Mem), b, o.Step, pal, false, nil)
 				okD := ev.Durable == "pre=post" || ev.Durable == "post" || (ev.Ret == "error" && ev.Durable == "pre")
 				if !okD {
-					viols = append(viols, mk(o.Step, o.Name, j, fmt.Sprintf("after a failed storage call (%s) the call returned %s and the store reopens to %s", refKinds[j], ev.Ret, ev.Durable)))
+					add(mk(o.Step, o.Name, j, fmt.Sprintf("after a failed storage call (%s) the call returned %s and the store reopens to %s", refKinds[j], ev.Ret, ev.Durable)))
 					continue
 				}
 			}
@@ -155,8 +176,11 @@ func validateEvents(evs []*faultEvent) (*tlcrun.Result, error) {
 // RunC17 is the check of C17.
 func RunC17(id, tier string, seed int64) int {
 	start := time.Now()
+	if tier == "thorough" {
+		multiEvery = 1
+	}
 	ev := &Evidence{PropertyID: id, Tier: tier, Seed: seed, Coverage: map[string]interface{}{}}
-	ev.Assumptions = []string{"the storage wrapper fails exactly one call per execution (thorough: also random double faults)", "the library is deterministic for a given behaviour (executions that do not reach the same call are not judged)",
+	ev.Assumptions = []string{"the storage wrapper fails one call per execution, or - at sampled positions - every call from the chosen one until the operation returns", "the library is deterministic for a given behaviour (executions that do not reach the same call are not judged)",
 		"flush threshold at its default: an operation is one physical write (split operations are C05's subject)"}
 	fail := func(code int, msg string) int {
 		fmt.Println(msg)
@@ -300,6 +324,7 @@ func RunC17(id, tier string, seed int64) int {
 			fmt.Printf("  [flush threshold 150] step %d %s, failing storage call #%d (%s): %s\n", v.Step, v.Op, v.FailAt, v.CallKind, truncate(v.Msg, 300))
 		}
 	}
+	ev.Coverage["multi_fault_positions"] = fmt.Sprintf("%d positions re-run with a persistent failure (every storage call from the chosen one until the operation returns fails), every %dth position", atomic.LoadInt64(&multiPositions), multiEvery)
 	ev.Coverage["small_flush_threshold_pass"] = fmt.Sprintf("%d fault positions in child processes, %d processes died", spos, sdied)
 	// regression witnesses of repaired defects
 	wfiles, _ := filepath.Glob(filepath.Join(VerifDir, "findings", id+"-*.json"))
@@ -453,6 +478,13 @@ func FaultChild(jobFile string) int {
 	return 0
 }
 
+// multi-fault sequences: a persistent failure from the chosen call on, at every multiEvery-th position
+var (
+	multiFault     = true
+	multiEvery     = 4
+	multiPositions int64
+)
+
 // noDurable: the small-threshold pass judges answers and process survival only; the durable state of
 // an operation that was cut by an auto-flush is the subject of C05 (incl. its listed findings)
 var noDurable bool
@@ -572,7 +604,7 @@ func ReplayFault(path string) (bool, int) {
 	if v.Kind == "fault-child" {
 		cv, _, _ := childWitness(b, &v)
 		for _, x := range cv {
-			if v.Step < 0 || (x.Step == v.Step && x.Op == v.Op && x.FailAt == v.FailAt) {
+			if v.Step < 0 || (x.Step == v.Step && x.Op == v.Op && x.FailAt == v.FailAt && x.Persist == v.Persist) {
 				fmt.Println(x.Msg)
 				fmt.Printf("VIOLATION property=%s replay=%s\n", v.Property, path)
 				return true, 1
@@ -584,7 +616,7 @@ func ReplayFault(path string) (bool, int) {
 	pal := palette.New(v.Palette, v.K, v.PalSeed)
 	_, viols, _, _ := faultOne(b, pal, v.Palette, v.PalSeed, v.K, v.Cache, v.Flush, v.Sync)
 	for _, x := range viols {
-		if x.Step == v.Step && x.Op == v.Op && x.FailAt == v.FailAt {
+		if x.Step == v.Step && x.Op == v.Op && x.FailAt == v.FailAt && x.Persist == v.Persist {
 			fmt.Printf("step %d %s, failing call #%d (%s): %s\n", x.Step, x.Op, x.FailAt, x.CallKind, x.Msg)
 			fmt.Printf("VIOLATION property=%s replay=%s\n", v.Property, path)
 			return true, 1
